@@ -377,6 +377,7 @@ Definition tg_recv (s : tg_sess) (pty pmid : Z) : tg_sess * list tg_out :=
 
 (* client: coap_session_check_connect -> l_establish *)
 Definition tg_connect (s : tg_sess) : tg_sess * list tg_out :=
+  if negb (tg_type_eqb (ts_type s) TgClient) then (s, []) else
   match ts_proto s with
   | TgUdp => tg_connected s
   | TgDtls =>
